@@ -2,6 +2,7 @@ package gen
 
 import (
 	"math"
+	"strings"
 
 	"pgregory.net/rapid"
 	"verif/harness/model"
@@ -53,6 +54,12 @@ func Perturb(t *rapid.T, s *spec.Spec, env *model.Env, mv any) (any, string) {
 		}
 		if s.Pattern != nil {
 			c = append(c, str+"\n#", "")
+		} else {
+			// lengths are counted in bytes: strings of multi-byte runes whose rune count is within the maximum while
+			// their byte count is beyond it
+			if s.Max != nil && *s.Max >= 1 && *s.Max < 64 {
+				c = append(c, strings.Repeat("é", int(*s.Max)), strings.Repeat("日", int(*s.Max)/3+1))
+			}
 		}
 		if len(c) == 0 {
 			return mv, ""
